@@ -414,3 +414,97 @@ def _(ctx):
             st = it.rule_counts.get('local-static', 0)
             ok = not gw and not st
             ctx.record('%s.%s' % (fn, mode), PROVED if ok else FAILED, 'B', 0, 'paths=%d file-scope writes=%s static declarations executed=%d' % (len(ps), gw, st))
+
+# ------------------------------------------------------------------------------------------------ ambient process/thread state
+AMBIENT = {'fetestexcept', 'feclearexcept', 'feraiseexcept', 'fegetexceptflag', 'fesetexceptflag', 'fegetenv', 'fesetenv', 'feholdexcept', 'feupdateenv', 'fegetround', 'fesetround',
+           'errno', 'rand', 'srand', 'random', 'drand48', 'time', 'clock', 'getenv', 'setenv', 'putenv', 'setlocale', 'localeconv', 'strtok', 'gmtime', 'localtime', 'asctime', 'ctime',
+           'getpid', 'gettid', 'signal', 'raise', 'random_device', 'get_id', 'now', 'gettimeofday', 'clock_gettime', 'tmpnam', 'strerror', 'uncaught_exception', 'uncaught_exceptions',
+           'set_terminate', 'set_new_handler', 'atexit', 'at_quick_exit'}
+
+AMBIENT_REPLAY = r'''
+#include "gm2calc/MSSMNoFV_onshell.hpp"
+#include "gm2calc/gm2_1loop.hpp"
+#include "gm2calc/gm2_2loop.hpp"
+#include "gm2calc/gm2_uncertainty.hpp"
+#include "gm2calc/gm2_error.hpp"
+#include <cfenv>
+#include <cerrno>
+#include <cstdio>
+#include <cstring>
+#include <cmath>
+// the same SLHA-type point is converted and evaluated in a clean thread state and after the sticky floating-point exception flags and errno were set by
+// "earlier work" in the thread: every result must be bit-identical
+static void eval(double out[6]) {
+   gm2calc::MSSMNoFV_onshell model; const double Pi = 3.141592653589793;
+   const Eigen::Matrix<double,3,3> one = Eigen::Matrix<double,3,3>::Identity();
+   model.set_alpha_MZ(0.0077552); model.set_alpha_thompson(0.00729735); model.set_g3(std::sqrt(4 * Pi * 0.1184));
+   model.get_physical().MFt = 173.34; model.get_physical().MFb = 4.18; model.get_physical().MFm = 0.1056583715; model.get_physical().MFtau = 1.777;
+   model.get_physical().MVWm = 80.385; model.get_physical().MVZ = 91.1876;
+   model.get_physical().MSvmL = 5.18860573e+02; model.get_physical().MSm(0) = 5.05095249e+02; model.get_physical().MSm(1) = 5.25187016e+02;
+   model.get_physical().MChi(0) = 2.01611468e+02; model.get_physical().MChi(1) = 4.10040273e+02; model.get_physical().MChi(2) = 5.16529941e+02; model.get_physical().MChi(3) = 5.45628749e+02;
+   model.get_physical().MCha(0) = 4.09989890e+02; model.get_physical().MCha(1) = 5.46057190e+02; model.get_physical().MAh(1) = 1.5e+03;
+   model.set_TB(40); model.set_Mu(500); model.set_MassB(200); model.set_MassWB(400); model.set_MassG(2000);
+   model.set_mq2(7000. * 7000 * one); model.set_ml2(0, 0, 500. * 500); model.set_ml2(1, 1, 500. * 500); model.set_ml2(2, 2, 500. * 500);
+   model.set_md2(7000. * 7000 * one); model.set_mu2(7000. * 7000 * one);
+   model.set_me2(0, 0, 500. * 500); model.set_me2(1, 1, 500. * 500); model.set_me2(2, 2, 500. * 500);
+   model.set_Au(2, 2, 0); model.set_Ad(2, 2, 0); model.set_Ae(1, 1, 0); model.set_Ae(2, 2, 0); model.set_scale(1000);
+   try { model.convert_to_onshell(); } catch (const gm2calc::Error&) {}
+   out[0] = gm2calc::calculate_amu_1loop(model); out[1] = gm2calc::calculate_amu_2loop(model); out[2] = gm2calc::calculate_uncertainty_amu_2loop(model);
+   out[3] = model.get_me2(1, 1); out[4] = model.get_Mu(); out[5] = model.get_problems().have_warning() ? 1 : 0;
+}
+int main() {
+   double a[6], b[6];
+   std::feclearexcept(FE_ALL_EXCEPT); errno = 0;
+   eval(a);
+   std::feraiseexcept(FE_OVERFLOW | FE_INVALID | FE_DIVBYZERO | FE_UNDERFLOW | FE_INEXACT); errno = ERANGE;
+   eval(b);
+   const bool same = std::memcmp(a, b, sizeof a) == 0;
+   if (!same) std::printf("clean thread state: amu1L=%.17g amu2L=%.17g me2(1,1)=%.17g warning=%g\nafter FE flags/errno:  amu1L=%.17g amu2L=%.17g me2(1,1)=%.17g warning=%g\n", a[0], a[1], a[3], a[5], b[0], b[1], b[3], b[5]);
+   std::printf("results %s on the ambient thread state\n", same ? "do not depend" : "DEPEND");
+   return same ? 0 : 1;
+}
+'''
+
+def ambient_replay(model, wd):
+    from gm2v import native
+    import subprocess
+    exe = native.build_against_library(wd, AMBIENT_REPLAY)
+    r = subprocess.run([exe], capture_output=True, text=True, timeout=300)
+    return r.returncode == 1, r.stdout.strip()[-1500:]
+
+@obligation('C19.no_ambient_state', fns=[], replay=ambient_replay)
+def _(ctx):
+    """frame inference over EVERY function body of the library sources: no function reads or writes ambient process/thread state -- the floating-point environment
+    (sticky exception flags, rounding mode), errno, the C random generator, clocks, the environment, the locale, thread ids: a result that depends on any of them
+    depends on what ran before in the same thread ("does not depend on what was computed before in the same process")"""
+    bad = []
+    n_fn = 0
+    for p, u in ctx.w.units.items():
+        rel = ctx.w.rel(p)
+        if rel.endswith('gm2calc.cpp') or rel.endswith('slhaea.h'):
+            continue
+        for fd in u.funcs:
+            try:
+                body = ctx.w.body(fd)
+            except _cxx.ParseError:
+                continue
+            n_fn += 1
+            hits = set()
+            def visit(n):
+                if isinstance(n, _cxx.Id):
+                    last = n.name.split('::')[-1]
+                    if last in AMBIENT and (n.name == last or n.name.startswith(('std::', '::'))):
+                        hits.add(n.name)
+                elif isinstance(n, _cxx.Member) and n.name in ('now', 'get_id'):
+                    hits.add('.' + n.name)
+            _walk(body, visit)
+            # a local variable or parameter of the same name is not the library symbol
+            local = {q.name for q in fd.params if q.name}
+            decls = []
+            _walk(body, lambda n: decls.append(n) if isinstance(n, _cxx.Decl) else None)
+            local |= {d.name for d in decls}
+            hits = {h for h in hits if h.split('::')[-1].lstrip('.') not in local}
+            if hits:
+                bad.append('%s: %s uses %s' % (rel, fd.qname, sorted(hits)))
+    ctx.record('', PROVED if not bad else FAILED, 'B', 0, ('; '.join(bad))[:1500] if bad else '%d function bodies scanned: no access to the floating-point environment, errno, clocks, random generators, environment or locale' % n_fn,
+               solver='frame inference (AST)', model={'offenders': bad[:10]} if bad else None)
